@@ -142,6 +142,8 @@ class BaseANTLRSpineParserListener(kernSpineParserListener):
         # the notes of a chord share their decorations, but not with a rest among them: a rest with the stem or the beam of a
         # note cannot be read again ('4c/ 4r' was exported as '4c/ 4r/'), nor can a note with the position of a rest
         self.addNoteRest(ctx, pitch_duration_tokens, self.rest_decorations)
+        # ... nor with the other rests of the chord: the vertical position is a property of one rest ('4rdd 4rf')
+        self.rest_decorations = []
 
     def enterChord(self, ctx: kernSpineParser.ChordContext):
         self.in_chord = True
